@@ -368,6 +368,10 @@ struct mszipd_stream *mszipd_init(struct mspack_system *system,
   zip->repair_mode     = repair_mode;
   zip->flush_window    = &mszipd_flush_window;
 
+  /* a match may refer to bytes before the start of the first block: make
+   * that history defined rather than whatever the allocator handed out */
+  memset(&zip->window[0], 0, MSZIP_FRAME_SIZE);
+
   zip->i_ptr = zip->i_end = &zip->inbuf[0];
   zip->o_ptr = zip->o_end = NULL;
   zip->bit_buffer = 0; zip->bits_left = 0;
